@@ -894,8 +894,6 @@ def render_sim(site, n):
     k = site['afmt']['kind']
     if k != 'd':
         game.append('AddressAnchor=' + {'x': '{address:04x}', 'X': '{address:04X}'}[k])
-    if game:
-        ref.append('[Game]\n' + '\n'.join(game))
     css = site['res'][0]
     paths = ['GameIndex=' + P(site['index']), 'StyleSheetPath=' + P(css[:-1]),
              'MemoryMap=' + P(site['maps'][0]['path']), 'RoutinesMap=' + P(site['maps'][1]['path']),
@@ -910,6 +908,9 @@ def render_sim(site, n):
     ref.append('[Paths]\n' + '\n'.join(paths))
     for mid in ('MessagesMap', 'UnusedMap', 'GameStatusBuffer'):
         ref.append('[MemoryMap:%s]\nWrite=0' % mid)
+    ref.append('[Index]\nMemoryMaps\nOtherCode\nExtra\n\n[Index:Extra:Extra pages]\nP1')
+    game.append('LinkInternalOperands=1')
+    ref.append('[Game]\n' + '\n'.join(game))
     by_code = {1: [], 2: []}
     for e in site['entries']:
         by_code[e['c']].append(e)
@@ -938,13 +939,20 @@ def render_sim(site, n):
         body = []
         for e in sorted(by_code[c], key=lambda e: e['a']):
             body.append('; Entry %d' % e['a'])
-            if e.get('refs'):
+            macros = [rmacro(c, r, remotes) for r in e.get('refs', ()) if not r['op']]
+            operands = [r for r in e.get('refs', ()) if r['op']]
+            for r in operands:
+                rmacro(c, r, remotes)      # declares the @remote entry an operand needs as well
+            if macros:
                 body.append(';')
-                body.append('; ' + ' '.join(rmacro(c, r, remotes) for r in e['refs']))
+                body.append('; ' + ' '.join(macros))
             for i, a in enumerate(e['ins']):
                 if a in e['bc']:
                     body.append('; mid-block comment')
-                body.append('%s%05d %s' % (e['t'] if i == 0 else ' ', a, OPS.get(e['t'], 'DEFB 0')))
+                op = OPS.get(e['t'], 'DEFB 0')
+                if operands and i == len(e['ins']) - 1:
+                    op = 'DEFW %d' % operands[0]['a']
+                body.append('%s%05d %s' % (e['t'] if i == 0 else ' ', a, op))
             body.append('')
         head = ['@remote=%s:%s' % (ids[rc - 1], ','.join(str(a) for a in [ea] + sorted(pts - {ea})))
                 for (rc, ea), pts in sorted(remotes.items())]
